@@ -35,6 +35,11 @@ def run(rep, tier):
     rule_r2(rep, idx)
     rule_r3(rep)
     rule_r4(rep, idx)
+    from .. import report as _report
+    from . import c02
+    rep.rule('R5', '"memory not covered by the loaded image reads as zero": the loader writes exactly the image (length word << 2 bytes at '
+             'word 0) into the zero-initialised memory and nothing behind it (import of C02-R2)', floor=1)
+    c02.rule_r2(_report.Import(rep, 'R5', 'C02', key_filter=lambda r, k: k.startswith('load:')), idx)
 
 
 def rule_r1(rep, idx):
